@@ -31,6 +31,7 @@ type Decoder struct {
 	r                     DecoderReader
 	disallowUnknownFields bool
 	networkFormat         bool
+	depth                 int // current nesting of lists and compounds, limited by maxNestingDepth
 }
 
 func NewDecoder(r io.Reader) *Decoder {
